@@ -30,16 +30,21 @@ func patSeed(sl int) func(in *Interp, st *State, ps []Val) {
 
 func runC07(c *Checker) {
 	c.Level = "other"
-	c.explain = "The PAT accessors are interpreted on a symbolic payload with pointer_field 0 and each section_length 9+4N (+0..3) for N = 0..6: NumPrograms must be the constant N; ProgramMap must perform exactly N map updates whose key is p[9+4i]‖p[10+4i], whose value is p[11+4i][4:0]‖p[12+4i], each guarded by program_number > 0 only; SPTSpmtPID must fail for N > 1, return the single stored PID for N = 1 with a program entry and fail otherwise. NewPAT is interpreted for lengths around its thresholds, IsPMT for maps of 0..3 entries, ReadPAT by one abstract iteration of its loop (read replaced by a model with seeded PID bits: all zero, or bit k one for each k) with a case analysis on the read result. Decides: count formula, entry layout, guard, carriers' plumbing. Does not decide: the map contents for concrete tables, PATs with pointer_field ≠ 0."
+	c.explain = "The PAT accessors are interpreted on a symbolic payload with pointer_field 0 and each section_length 9+4N (+0..3) for N = 0..6 and 62, 64, 253 (section_length above 255, up to the 1021 maximum): NumPrograms must be the constant N; ProgramMap must perform exactly N map updates whose key is p[9+4i]‖p[10+4i], whose value is p[11+4i][4:0]‖p[12+4i], each guarded by program_number > 0 only; SPTSpmtPID must fail for N > 1, return the single stored PID for N = 1 with a program entry and fail otherwise. NewPAT is interpreted for lengths around its thresholds, IsPMT for maps of 0..3 entries, ReadPAT by one abstract iteration of its loop (read replaced by a model with seeded PID bits: all zero, or bit k one for each k) with a case analysis on the read result. Decides: count formula, entry layout, guard, carriers' plumbing. Does not decide: the map contents for concrete tables, PATs with pointer_field ≠ 0."
 	c.trust("go/ssa + go/types (x/tools v0.29.0)", "E1 transfer functions incl. map-update logging", "layout transcribed from ISO/IEC 13818-1 Table 2-30")
-	maxN := 6
+	// entry counts: the small tables, and tables whose section_length needs
+	// the high length bits (62 entries: 257; 253 entries: 1021, the maximum)
+	patNs := []int{0, 1, 2, 3, 4, 5, 6, 62, 64, 253}
 	// ---- NumPrograms
 	{
 		var bad []string
 		n := 0
-		for N := 0; N <= maxN; N++ {
+		for _, N := range patNs {
 			for extra := 0; extra < 4; extra++ {
 				sl := 9 + 4*N + extra
+				if sl > 1021 {
+					continue // above the largest section_length of ISO 13818-1
+				}
 				s, _ := c.summary("C07.count", "psi:(pat).NumPrograms", &AnalyzeOpts{SliceLen: map[string]int{"pat": 4 + sl + 8}, Pre: patSeed(sl)})
 				if s == nil {
 					return
@@ -55,13 +60,13 @@ func runC07(c *Checker) {
 				}
 			}
 		}
-		c.check("C07.count", "psi:(pat).NumPrograms", "section_length 9+4N(+0..3), N=0..6: returns N = (section_length − 5 header bytes − 4 CRC bytes) / 4", len(bad) == 0, strings.Join(bad, "; "))
-		c.floorCheck("C07.count analyses", n, 28)
+		c.check("C07.count", "psi:(pat).NumPrograms", "section_length 9+4N(+0..3), N=0..6, 62, 64, 253: returns N = (section_length − 5 header bytes − 4 CRC bytes) / 4", len(bad) == 0, strings.Join(bad, "; "))
+		c.floorCheck("C07.count analyses", n, 4*len(patNs)-3)
 	}
 	// ---- ProgramMap
 	{
 		var bad []string
-		for N := 0; N <= maxN; N++ {
+		for _, N := range patNs {
 			sl := 9 + 4*N
 			s, _ := c.summary("C07.entries", "psi:(pat).ProgramMap", &AnalyzeOpts{SliceLen: map[string]int{"pat": 4 + sl}, Pre: patSeed(sl)})
 			if s == nil {
@@ -107,7 +112,7 @@ func runC07(c *Checker) {
 		if len(bad) > 0 {
 			d = fmt.Sprintf("%d mismatches; first: %s", len(bad), bad[0])
 		}
-		c.check("C07.entries", "psi:(pat).ProgramMap", "N=0..6: exactly N updates, key = program_number (b[9+4i]‖b[10+4i]), value = PID (b[11+4i][4:0]‖b[12+4i]), stored iff program_number > 0", len(bad) == 0, d)
+		c.check("C07.entries", "psi:(pat).ProgramMap", "N=0..6, 62, 64, 253: exactly N updates, key = program_number (b[9+4i]‖b[10+4i]), value = PID (b[11+4i][4:0]‖b[12+4i]), stored iff program_number > 0", len(bad) == 0, d)
 	}
 	// ---- SPTSpmtPID
 	{
